@@ -371,7 +371,7 @@ def run_c16_c12(prop, tier):
         good = [t for t, v in tuples if v == "supported" and t["fault"] == ""]
         chosen = pairwise_sample(good, rnd, 260 if q else 2500, keys)
         for n, t in enumerate(chosen):
-            name, assets = ins[n % len(ins)]
+            name, assets = ins[(n + n // len(ins)) % len(ins)]      # (shifted by one every round: each input kind meets every country / method in turn)
             job = make_run_job(t, assets, rnd, mode="console" if n % 40 == 7 else ("exec" if n % 40 == 3 else "fork"))
             job["input_kind"] = name
             # the remaining options of the command line: -p (file names carry the prefix), -a with a configured asset (same files), -o relative
@@ -382,6 +382,15 @@ def run_c16_c12(prop, tier):
             if n % 6 == 4 and job["mode"] != "console":
                 job["relative_out"] = True
             jobs.append(job)
+        # every input meets every country at least once (each country has its own generators, templates and sheet sets)
+        seen = {(id(j["assets"]), j["country"]) for j in jobs}
+        for name, assets in ins:
+            for c in ("us", "jp", "es", "ie", "generic"):
+                if (id(assets), c) not in seen:
+                    plain = [t for t in good if t["country"] == c and t["shape"] == "none" and t["lang"] == ""] or [t for t in good if t["country"] == c]
+                    job = make_run_job(rnd.choice(plain), assets, rnd)
+                    job["input_kind"] = name
+                    jobs.append(job)
     else:
         bad_opts = [t for t, v in tuples if v == "unsupported" and t["fault"] == ""]
         chosen = pairwise_sample(bad_opts, rnd, 60 if q else 600, keys)
